@@ -102,7 +102,21 @@ def replay_failures(obl, out):
             out.broken.append("reachable panic / unexplained failure in %s: %s" % (label, info))
             continue
         if info[0] == "verify":
-            _, case = info
+            _, tgt, d, err = info
+            t = model.eval(tgt, model_completion=True).as_long()
+            args = []
+            for nm, txt in (("ignore.span", "ignore"), ("reverse.span", "reverse"), ("by", "by = f"), ("key", "key = $.k()")):
+                if z3.is_true(model.eval(d(nm), model_completion=True)):
+                    args.append(txt)
+            attr = "#[ord(%s)]" % ", ".join(args) if args else "#[ord]"
+            item = {0: "%s struct X { f0: u8 }" % attr, 1: "enum X { %s V0 { f0: u8 }, V1 }" % attr, 2: "struct X { %s f0: u8 }" % attr}[t]
+            ref = t != 2 and bool(args)
+            # on a field the arguments are subject to the per-trait rules; only derive Ord there so that `ord(..)` alone is always acceptable
+            case = {"property": PID, "kind": "reject", "trait": "placement:" + ["Type", "Variant", "Field"][t], "mode": "attr", "attr": "Ord, PartialOrd, Eq, PartialEq, Hash" if t != 2 else "Ord",
+                    "item": item, "expected_reject": ref,
+                    "explain": "HelperAttributeForCompareOp::verify returns %s for target %s with arguments %s" % ("Err" if err else "Ok", ["Type", "Variant", "Field"][t], args)}
+            if t == 2 and ("by = f" in args or "key = $.k()" in args or "ignore" in args or "reverse" in args):
+                pass
         else:
             trait, kind, fields, err = info
             attrs = []
@@ -129,7 +143,7 @@ def replay_failures(obl, out):
         obs = replay_e3.observe(case)
         path = e3.write_replay(PID, "case%03d" % len(seen), case)
         if replay_e3.disagrees(case, obs):
-            rej = case["trait"] in obs["rejected_traits"]
+            rej = case["trait"] in obs["rejected_traits"] if case["kind"] == "reject_trait" else obs["rejected"]
             out.violation("%s|%s" % (case["trait"], common.norm(case["item"])[:120]), path,
                           "macro %s %s but the documented rule says %s: #[derive_ex(%s)] %s" % (
                               "rejects" if rej else "accepts", case["trait"], "reject" if case["expected_reject"] else "accept", case["attr"], " ".join(case["item"].split())))
@@ -153,7 +167,7 @@ def check_verify(eng, obl, out):
         if r.kind != "return":
             out.inconclusive.append("verify: %s %s" % (r.kind, r.value))
             continue
-        obl.check_unsat(ex, "verify:placement", list(r.pc) + [want if not is_err(r) else z3.Not(want)], info=("panic", "verify placement rule"), keep_smt=True)
+        obl.check_unsat(ex, "verify:placement", list(r.pc) + [want if not is_err(r) else z3.Not(want)], info=("verify", tgt, d, is_err(r)), keep_smt=True)
     e3.coverage_check(ex, obl, "HelperAttributeForCompareOp::verify", res)
     # all five attributes are verified, with the same target
     ex2 = eng.executor(opaque_local=OPAQUE | {"HelperAttributeForCompareOp::verify"}, trace={"HelperAttributeForCompareOp::verify"})
